@@ -197,9 +197,18 @@ def files(ctx: Ctx):
                       {'surface': 'file', 'design': d, 'targeton': t, 'record': raw}, broken='correspondence S-file custom rows (C08)')
 
 
+def bg_accept(kind: str, what: str) -> bool:
+    return 'custom' in what and kind.startswith(('row_extra', 'row_missing', 'row_columns:ref', 'row_columns:new', 'row_columns:vcf_var_in_const',
+                                                   'row_columns:vcf_alias', 'row_columns:vcf_var_id', 'row_columns:mseq', 'mut_position'))
+
+
 def run(ctx: Ctx):
     sweep(ctx)
     files(ctx)
+    # custom variants are given in REF coordinates; with background variants they are lifted before being applied and reported back in REF
+    # coordinates: checked through the relation with the same design on the pre-edited genome (C06's metamorphic pair), custom rows only
+    from . import c06
+    c06.background_stage(ctx, ctx.n(50, 500), bg_accept)
     return {'rule': 'S-api: every record with REF, ALT over {A,C} of length <=3 (quick) / <=4 (thorough) at POS 1, 2, 5, plus monomorphic, through the real '
                     'CustomVariant.from_record_with_id; compared with the Coq model, with effect preservation on a template and with the documented reported form. '
                     'S-file: random designs with SNV/MNV/anchored ins/del/anchored and unanchored delins/padded/monomorphic/multi-allelic/lower-case records in 1-3 '
@@ -211,6 +220,14 @@ def replay(ctx: Ctx, path: str) -> int:
     with open(path) as fh:
         v = json.load(fh)
     c = v.get('case', {})
+    if c.get('via') == 'background_pair':
+        from . import c06
+        common.use_repo()
+        if c06.replay_background(ctx, c, bg_accept):
+            print(f'VIOLATION property=C08 replay={path}')
+            return 1
+        print('replay: property holds on this input now')
+        return 0
     common.use_repo()
     if c.get('surface') == 'api' and 'record' in c:
         pos, ref, alt = c['record']
